@@ -9,6 +9,19 @@ func H_C17_sizeText(n int) {
 	pre := Size(vU64("pre"))
 	v := pre
 	err := v.UnmarshalText(in)
+	// UnmarshalText is the parser under the text part of DefaultRule: same verdict, the parsed value is stored
+	// whatever the receiver held, a refusal wraps the parser's error
+	pv, perr := DefaultParser(in, DefaultRule&ruleUnmarshalTextMask)
+	vAssert("unmarshal-agrees-with-parser", (err == nil) == (perr == nil))
+	if err == nil {
+		vAssert("successful-unmarshal-stores-the-parsed-value", v == pv)
+	} else {
+		w, wraps := err.(interface{ Unwrap() error })
+		vAssert("unmarshal-error-wraps-the-parser-error", wraps && w.Unwrap() != nil)
+		for _, sentinel := range []error{ErrInputTooLong, ErrUnitDisabled} {
+			vAssert("same-sentinels-as-the-parser", errorsIs(err, sentinel) == errorsIs(perr, sentinel))
+		}
+	}
 	vReach("ok", err == nil)
 	vReach("failed", err != nil)
 	if err != nil {
